@@ -16,10 +16,10 @@ from aiocoap.util import hostportjoin, hostportsplit
 PROP = "C16"
 LEVEL = "exploration"
 EXHAUSTIVE = True
-RULE = ("E1: (a) 9 schemes x 22 hosts x 9 ports x {plain, userinfo, fragment} with two paths; (b) path lists of length <= 3 and query "
+RULE = ("E1: (a) 9 schemes x 22 hosts x 9 ports x {plain, userinfo, fragment} with two paths; (b) path lists of length <= 3 (4 in the thorough tier) and query "
         "lists of length <= 2 over a 23-segment alphabet (reserved characters, empty, dots, control characters below U+0010 followed by a hex digit, DEL, non-ASCII up to astral planes, literal percent text), given "
-        "percent-encoded in URI text and raw in options, for three host kinds; (c) verbatim bad escapes; (d) every string of length <= 3 "
-        "over {c o a p : / ? # @ [ ] % .} alone and behind 'coap:', 'coap://', 'coap://h'; (e) host/port split-join pairs. "
+        "percent-encoded in URI text and raw in options, for three host kinds; (c) verbatim bad escapes; (d) every string of length <= 3 (5 in the thorough tier) "
+        "over {c o a p : / ? # @ [ ] % .} alone and behind 'coap:', 'coap://', 'coap://h', 'coap://h:', 'coaps+ws://[', 'coap://][', 'coap://@[', 'coap://[::1]'; (e) host/port split-join pairs. "
         "distinct = distinct (family, outcome class, shape)")
 ASSUMPTIONS = [
     "incomplete percent sequences ('%zz') may be rejected or passed through literally (RFC 3986 makes them invalid; the library documents tolerance)",
@@ -172,13 +172,15 @@ def fam_authority(res):
                         check_text(res, "authority", uri, "ok", case, exp)
 
 
-def fam_segments(res, first):
+def fam_segments(res, first, tier="quick"):
     for hostpart, hexp in (("example.com", "example.com"), ("[2001:db8::1]:61616", None), ("10.0.0.7", None)):
-        for n in range(0, 3):
+        for n in range(0, 3 if tier == "quick" else 4):
             for rest in itertools.product(SEGS, repeat=n):
                 path = (first,) + rest
                 for q in [()] + [(s,) for s in SEGS] + ([(a, b) for a in SEGS[:8] for b in SEGS[8:]] if n < 2 else []):
-                    if hostpart != "example.com" and (n == 2 or len(q) == 2):
+                    if hostpart != "example.com" and (n >= 2 or len(q) == 2):
+                        continue
+                    if n == 3 and len(q) > 1:
                         continue
                     uri = "coap://" + hostpart + "".join("/" + pct(s) for s in path) + ("?" + "&".join(pct(s) for s in q) if q else "")
                     exp_path = () if path == ("",) else path
@@ -235,8 +237,8 @@ def fam_badescapes(res):
 CHARS = "coap:/?#@[]%."
 
 
-def fam_strings(res, prefix):
-    for n in range(0, 4):
+def fam_strings(res, prefix, tier="quick"):
+    for n in range(0, 4 if tier == "quick" else 6):
         for t in itertools.product(CHARS, repeat=n):
             s = prefix + "".join(t)
             case = {"family": "strings", "prefix": prefix, "shape": (prefix, n)}
@@ -266,16 +268,16 @@ def fam_hostport(res):
 
 
 def job(arg):
-    kind, item = arg
+    kind, item, tier = arg
     res = Result()
     if kind == "authority":
         fam_authority(res)
         res.sample({"uri": "coaps+tcp://EX%41MPLE.com:61616/x/y?k=v", "expected": {"Uri-Host": "example.com", "Uri-Path": ["x", "y"]}})
     elif kind == "segments":
-        fam_segments(res, item)
+        fam_segments(res, item, tier)
         res.sample({"uri": "coap://example.com/" + pct(item) + "/" + pct("a/b") + "?" + pct("a&b"), "expected_path": [item, "a/b"], "expected_query": ["a&b"]})
     elif kind == "strings":
-        fam_strings(res, item)
+        fam_strings(res, item, tier)
         res.sample({"uri_string": item + "?#@"})
     else:
         fam_badescapes(res)
@@ -284,9 +286,9 @@ def job(arg):
 
 
 def run(tier, seed, jobs):
-    work = [("authority", None), ("misc", None)]
-    work += [("segments", s) for s in SEGS]
-    work += [("strings", p) for p in ("", "coap:", "coap://", "coap://h", "coaps+ws://[", "coap://h:")]
+    work = [("authority", None, tier), ("misc", None, tier)]
+    work += [("segments", s, tier) for s in SEGS]
+    work += [("strings", p, tier) for p in ("", "coap:", "coap://", "coap://h", "coaps+ws://[", "coap://h:", "coap://][", "coap://@[", "coap://[::1]")]
     res = core.prun(job, work, jobs)
     res.scenarios["space"] = {"schemes": len(SCHEMES), "hosts": len(HOSTS), "ports": len(PORTS), "segments": len(SEGS), "chars": len(CHARS)}
     return res
